@@ -1,5 +1,6 @@
 (* Corr/C02.v — references and built-ins denote the reference semantics. *)
 From Verif Require Import Base.Bytes Base.Wire Model.Chain Model.GoText Model.Eval Model.Interp Corr.EvalWire Corr.C01.
+From Verif Require Corr.C02Parse.      (* the parser cases: YAML syntax tree -> AST (Model/Parse.v vs ast.ParseEnvironment) *)
 
 (* claims the generator attaches to a program: what the property demands of the result *)
 Inductive claim :=
@@ -190,7 +191,7 @@ Definition ispec_fail (c : icase) : bool :=
   | None => false
   end.
 
-Inductive anycase := CProg (c : case) | CInterp (c : icase).
+Inductive anycase := CProg (c : case) | CInterp (c : icase) | CParse (c : C02Parse.pcase).
 
 Definition decode_prog (x : sexp) : option case :=
 
@@ -224,6 +225,7 @@ Definition decode (x : sexp) : option anycase :=
           end
       | _, _, _, _ => None
       end
+  | SList (Atom "parse" :: _) => option_map CParse (C02Parse.decode x)
   | _ => option_map CProg (decode_prog x)
   end.
 
@@ -231,6 +233,7 @@ Definition verdict (c : anycase) : N :=
   match c with
   | CProg c => verdict_bits (mismatch c) (spec_fail_new c) (spec_fail_known c) (nontrivial c)
   | CInterp c => verdict_bits (imismatch c) (ispec_fail c) false true
+  | CParse c => C02Parse.verdict c
   end.
 
 Definition run_line : string -> string := run_with decode verdict.
